@@ -2,14 +2,20 @@ SPECIFICATION FineSpec
 CONSTANTS
   Cons = {"s1", "s2"}
   Healthy = {}
+  Other = {}
   N = 2
   HCap = 64
   Parts = 2
+  ElemParts = 1
   WsMode = TRUE
+  EnqAcct = FALSE
+  HasDeadline = TRUE
+  Prime = FALSE
   MaxPub = 3
   MaxRead = 2
   MaxStall = 1
   MaxSweep = 1
   MaxLeave = 0
+  MaxPubB = 0
 INVARIANTS WholeUnits
 VIEW FineView
